@@ -783,9 +783,45 @@ func c13Client(e *Env, forC14 bool) {
 	if forC14 {
 		term = []string{"peer-eof", "rst", "local-close"}[t.Draw(3)]
 	}
+	peerDWRLeft := t.Draw(4)
+	type pend struct {
+		req RefMsg
+		at  time.Duration
+	}
+	var pending []pend
 	for steps := 0; steps < 2000; steps++ {
 		e.T.Mark()
+		if peerDWRLeft > 0 && !w.sc.Closed() && t.Chance(1, 3) {
+			// the peer probes the client: a state machine in the client role answers too
+			peerDWRLeft--
+			req := RefMsg{Cmd: cmdDW, Flags: 0x80, HbH: 0x70000000 + uint32(peerDWRLeft), E2E: c16IDs[t.Draw(4)], AVPs: identAVPs("srv.peer.example", "peer.example", true, true)}
+			w.schedule(time.Duration(t.Draw(3))*w.I/5, req.Bytes(), "peer-dwr")
+			pending = append(pending, pend{req, w.now()})
+			e.Fault("peer-dwr")
+		}
 		for _, o := range w.collect() {
+			if o.msg.Cmd == cmdDW && o.msg.Flags&0x80 == 0 {
+				// a DWA from the client: must answer one of the peer's DWRs
+				found := -1
+				for i, pd := range pending {
+					if pd.req.HbH == o.msg.HbH && pd.req.E2E == o.msg.E2E {
+						found = i
+					}
+				}
+				if found < 0 {
+					e.Fail("C13/unsolicited-dwa", "the client sent a DWA (%s) that answers none of the peer's DWRs", o.msg)
+					break
+				}
+				oh, or := o.msg.find(avpOriginHost), o.msg.find(avpOriginRealm)
+				rc := o.msg.find(268)
+				if oh == nil || or == nil || string(oh.Data) != smcHost || string(or.Data) != smcRealm || rc == nil || be32(rc.Data) != 2001 || o.msg.Flags&0x40 != pending[found].req.Flags&0x40 {
+					e.Fail("C13/dwa-content/client-role", "the client's DWA lacks the local identity, the success result code or the request's P bit: %s", o.msg)
+					break
+				}
+				pending = append(pending[:found], pending[found+1:]...)
+				e.Probe("client-role-dwa")
+				continue
+			}
 			if o.msg.Cmd != cmdDW || o.msg.Flags&0x80 == 0 {
 				continue
 			}
@@ -860,6 +896,31 @@ func c13Client(e *Env, forC14 bool) {
 			step = w.I
 		}
 		w.advance(step) // returns at the next library write or due delivery, whichever is first
+	}
+	if !e.Failed() && len(pending) > 0 && closedAt < 0 {
+		// give outstanding probes one more interval, then they must have been answered
+		w.advance(w.I)
+		for _, o := range w.collect() {
+			if o.msg.Cmd == cmdDW && o.msg.Flags&0x80 == 0 {
+				for i, pd := range pending {
+					if pd.req.HbH == o.msg.HbH && pd.req.E2E == o.msg.E2E {
+						pending = append(pending[:i], pending[i+1:]...)
+						break
+					}
+				}
+			}
+		}
+		if len(pending) > 0 && !w.sc.Closed() {
+			delivered := false
+			for _, d := range w.delivered {
+				if d.what == "peer-dwr" {
+					delivered = true
+				}
+			}
+			if delivered {
+				e.Fail("C13/no-dwa/client-role", "the peer, having completed the handshake, sent %d well-formed DWR(s) to the client's state machine and got no DWA", len(pending))
+			}
+		}
 	}
 	if !e.Failed() {
 		c13Check(w, plans, txs, hsAt, closedAt)
